@@ -299,7 +299,31 @@ def template_grammars():
     roles4 = {'DPair': 'class', 'dk': 'field', 'dv': 'field', 'de': 'field', 'DBox': 'class-template', 'dp': 'param', 'db': 'field',
               'DWrap': 'template', 'dq': 'param', 'dl': 'let', 'DList': 'rule', 'DNum': 'rule'}
     out.append(('derived', dict(name='vt_c20_derived', extends='vt_c20_parent', stmts=stmts4), roles4))
+    # names of the grammar itself in the OTHER namespace: a field (parameter, let variable) spelled like
+    # a rule / template that is mentioned in its own definition or before it, and nowhere in the rest
+    # of its scope (CROSSINGS lists the renamings that are legitimate by that rule)
+    stmts5 = [
+        ('rule', 'start', None, ('star', ('ref', 'XEntry'))),
+        ('class', 'XEntry', None, [('field', 'xa', ('call', 'XBr', [('alt', [('ref', 'XNum'), ('ref', 'XWord')])])),
+                                   ('field', 'xb', ('call', 'XBr', [('alt', [('ref', 'XWord'), ('str', '-')])])),
+                                   ('field', 'xc', ('py', 'xa')),
+                                   ('field', 'xd', ('let', 'xl', ('opt', ('ref', 'XSign')), ('seq', [('str', ';'), ('py', 'xl')])))]),
+        ('rule', 'XBr', ['xe'], ('right', ('str', '('), ('left', ('ref', 'xe'), ('str', ')')))),
+        ('rule', 'XNum', None, ('re', '[0-9]+', False)),
+        ('rule', 'XWord', None, T),
+        ('rule', 'XSign', None, ('alt', [('str', '+'), ('str', '~')])),
+        ('irule', 'XBlank', ('re', ' +', False)),
+    ]
+    roles5 = {'xa': 'field', 'xb': 'field', 'xc': 'field', 'xd': 'field', 'xl': 'let', 'xe': 'param'}
+    out.append(('crossing', dict(name=None, extends=None, stmts=stmts5), roles5))
     return out
+
+
+# template 'crossing': a local name takes the spelling of a global name of the same grammar where the
+# language's scoping keeps the two apart (the rule is mentioned at or before the binding only)
+CROSSINGS = [{'xa': 'XNum'}, {'xb': 'XWord'}, {'xb': 'XBr'}, {'xc': 'XNum'}, {'xc': 'XWord'}, {'xc': 'XBr'}, {'xc': 'XSign'},
+             {'xd': 'XSign'}, {'xd': 'XNum'}, {'xl': 'XSign'}, {'xl': 'XNum'}, {'xe': 'XNum'}, {'xe': 'XWord'}, {'xe': 'XSign'},
+             {'xa': 'XNum', 'xb': 'XWord', 'xd': 'XSign'}, {'xb': 'XBr', 'xc': 'XWord', 'xl': 'XSign', 'xe': 'XNum'}]
 
 
 PARENTS = {'derived': 'grammar vt_c20_parent\nstart = PItem*\nPItem = PWord\nPWord = /[a-z]+/\nignore PBlank = / +/\n'}
@@ -324,6 +348,8 @@ INPUTS = {
                    ('entry', 'RepC', (2,), 'a b'), ('entry', 'RepC', (1,), 'a b'), ('entry', 'RepC', (0,), ''), ('entry', 'RepC', (3,), 'a b')],
     'derived': ['', 'a b', '@a=12', '@a=1 b', '[a]', '[a] [b]', '<a>', 'a<b>', '(1,22)', '()', '@a=', '[a', '<a', '(1,', 'a @b=3 [c] <d> (4,5) e', '@ a = 1',
                 ('rule', 'DNum', '123'), ('rule', 'DList', '(1,2)'), ('rule', 'DPair', '@a=1'), ('rule', 'DNum', 'x')],
+    'crossing': ['', '(1)(a);', '(a)(-)+;', '(12) (b) ~ ;', '(1)(a);(b)(c)+;', '(1)(a)', '(-)(a);', '(1)(2);', '( 1 ) ( a ) ;',
+                 ('rule', 'XEntry', '(1)(a)+;'), ('rule', 'XNum', '12')],
     'optable': ['1', '1+2', '1+2*3', '-1!', '(1+2)*3', '12x+1', '(1', '1+', '((1))!', '1*(2+3)!'],
 }
 
@@ -456,6 +482,12 @@ def run_shard(rec):
                     break
                 run_renaming(rec, tag, G, base, {old: new}, roles, ex_attrs, 'single', inputs)
                 rec.count('single_renamings')
+        if tag == 'crossing':
+            for mp in CROSSINGS:
+                idx += 1
+                if rec.mine(idx):
+                    run_renaming(rec, tag, G, base, mp, roles, ex_attrs, 'crossing', inputs)
+                    rec.count('crossing_renamings')
         # multi-name regime: everything renamed at once into names outside the known classes
         safe = [n for n in pool if all(classify(n, role, ex_attrs) == 'none' for role in set(roles.values()))]
         for k in range(6 if quick else 60):
